@@ -38,6 +38,7 @@ structure Sys (α : Type) where
   tfLoop : Bool := false          -- the engine's total force includes Colvars' own force of the step it refers to
   cvs : List (CvSt α) := []
   biases : List (String × Bias α) := []
+  tsf : List (String × Int) := []      -- `timeStepFactor` of each bias (absent = 1)
   lastApplied : List (Nat × α) := []   -- atom ↦ z-force applied by Colvars at the previous step
 
 structure StepIn (α : Type) where
@@ -91,6 +92,11 @@ def biasUpdate (m : Sys α) (c : Clock) (cvs : List (CvSt α)) : Bias α → Bia
     let (s', e, f) := metaStep p c s xs
     (.mtd idx p s', e, idx.zip f)
 
+def tsfOf (m : Sys α) (name : String) : Int := (m.tsf.lookup name).getD 1
+
+/-- `step_absolute() % time_step_factor == 0` (always awake for factor 1) -/
+def awake (c : Clock) (n : Int) : Bool := decide (n ≤ 1) || decide (Int.tmod c.it n = 0)
+
 structure StepOut (α : Type) where
   energy : α
   atomF : List (Nat × α)     -- z-force on each atom that carries a variable
@@ -105,7 +111,14 @@ def modStep (m : Sys α) (i : StepIn α) : Sys α × StepOut α :=
   let c := m.clock.tick i.cont
   let cvs := m.cvs.map (cvUpdate m c i)
   -- biases in order; energies and forces summed
-  let upd := m.biases.map fun (nb : String × Bias α) => (nb.1, biasUpdate m c cvs nb.2)
+  -- a bias with time-step factor n is awake on steps that are multiples of n; asleep it is not updated and
+  -- contributes neither energy nor force; awake it applies n times its instantaneous force
+  let upd := m.biases.map fun (nb : String × Bias α) =>
+    let n := tsfOf m nb.1
+    if awake c n then
+      let r := biasUpdate m c cvs nb.2
+      (nb.1, (r.1, r.2.1, r.2.2.map fun (kv : Nat × α) => (kv.1, (n : α) * kv.2)))
+    else (nb.1, (nb.2, 0.0, []))
   let biases := upd.map fun x => (x.1, x.2.1)
   let energy := sumL (upd.map fun x => x.2.2.1)
   let fb : List (Nat × α) := upd.foldl (fun acc x => x.2.2.2.foldl (fun a (kv : Nat × α) => addAssoc a kv.1 kv.2) acc) []
